@@ -965,19 +965,29 @@ fn live_pair() -> Case {
         // one is not, that is a failure, not an environment without multicast
         let g = InstanceInformation::new("gamma".to_string()).with_ip_address(IpAddr::V4(Ipv4Addr::new(10, 1, 2, 5))).with_port(8104);
         let sg = match ServiceDiscovery::new(g, svc, 60) { Ok(s) => s, Err(_) => return Ok("not-exercised") };
+        // ... and a fourth without any address (a port and an attribute only: "0..n addresses"), listed like the others
+        let dl = InstanceInformation::new("delta".to_string()).with_port(8105).with_attribute("note".to_string(), Some("no address yet".to_string()));
+        let mut sdl = match ServiceDiscovery::new(dl.clone(), svc, 60) { Ok(s) => s, Err(_) => return Ok("not-exercised") };
         let deadline = Instant::now() + Duration::from_secs(4);
         let mut seen = None;
         let mut baseline = false;
-        while Instant::now() < deadline && (seen.is_none() || !baseline) {
+        let mut delta_seen: Option<InstanceInformation> = None;
+        while Instant::now() < deadline && (seen.is_none() || !baseline || delta_seen.is_none()) {
             sa.announce(false);
             sg.announce(false);
+            sdl.announce(false);
             std::thread::sleep(Duration::from_millis(150));
             let known = sb.get_known_services();
+            if delta_seen.is_none() { delta_seen = known.iter().find(|i| i.unescaped_instance_name() == "delta").cloned(); }
             if known.iter().any(|i| i.unescaped_instance_name() == "beta") { return Err("a discovery reports its own instance".into()); }
             baseline |= known.iter().any(|i| i.unescaped_instance_name() == "gamma");
             seen = known.into_iter().find(|i| i.unescaped_instance_name() == "alpha-one");
         }
         if !baseline { return Ok("not-exercised"); }
+        match &delta_seen {
+            None => return Err("an instance advertised with a port and an attribute but no address is never listed by get_known_services, while another instance of the service is".into()),
+            Some(d) => if inst_text(d, "delta") != inst_text(&dl, "delta") { return Err(format!("advertised {} listed {}", inst_text(&dl, "delta"), inst_text(d, "delta"))); }
+        }
         let got = match seen { Some(g) => g, None => return Err("a small instance of the service is discovered, the instance with two dozen long attributes (an announcement of about 5.5 KB) is not".into()) };
         if inst_text(&got, "alpha-one") != inst_text(&a, "alpha-one") { return Err(format!("advertised {} discovered {}", inst_text(&a, "alpha-one"), inst_text(&got, "alpha-one"))); }
         sa.remove_service_from_discovery();
@@ -1021,23 +1031,104 @@ async fn live_pair_tokio() -> Case {
     let (mut sa, sb) = match (ServiceDiscovery::new(a.clone(), svc, 60), ServiceDiscovery::new(b.clone(), svc, 60)) { (Ok(x), Ok(y)) => (x, y), _ => return c.tag("sockets-not-exercised") };
     let g = InstanceInformation::new("gamma".to_string()).with_ip_address(IpAddr::V4(Ipv4Addr::new(10, 1, 2, 5))).with_port(8104);
     let mut sg = match ServiceDiscovery::new(g, svc, 60) { Ok(x) => x, Err(_) => return c.tag("sockets-not-exercised") };
+    let dl = InstanceInformation::new("delta".to_string()).with_port(8105).with_attribute("note".to_string(), Some("no address yet".to_string()));
+    let mut sdl = match ServiceDiscovery::new(dl.clone(), svc, 60) { Ok(x) => x, Err(_) => return c.tag("sockets-not-exercised") };
     let deadline = Instant::now() + Duration::from_secs(4);
     let mut seen = None;
     let mut baseline = false;
-    while Instant::now() < deadline && (seen.is_none() || !baseline) {
+    let mut delta_seen: Option<InstanceInformation> = None;
+    while Instant::now() < deadline && (seen.is_none() || !baseline || delta_seen.is_none()) {
         let _ = sa.announce(false).await;
         let _ = sg.announce(false).await;
+        let _ = sdl.announce(false).await;
         tokio::time::sleep(Duration::from_millis(150)).await;
         let known = match tokio::time::timeout(Duration::from_secs(2), sb.get_known_services()).await { Ok(k) => k, Err(_) => return c.fail("discovery-wedged", "tokio pair: get_known_services does not return".into()) };
         if known.iter().any(|i| i.unescaped_instance_name() == "beta") { return c.fail("live-discovery-differs", "tokio pair: a discovery reports its own instance".into()); }
         baseline |= known.iter().any(|i| i.unescaped_instance_name() == "gamma");
+        if delta_seen.is_none() { delta_seen = known.iter().find(|i| i.unescaped_instance_name() == "delta").cloned(); }
         seen = known.into_iter().find(|i| i.unescaped_instance_name() == "alpha-one");
     }
     if !baseline { return c.tag("sockets-not-exercised"); }
+    match &delta_seen {
+        None => return c.fail("live-discovery-differs", "tokio pair: an instance advertised with a port and an attribute but no address is never listed by get_known_services".into()),
+        Some(d) => if inst_text(d, "delta") != inst_text(&dl, "delta") { return c.fail("live-discovery-differs", format!("tokio pair: advertised {} listed {}", inst_text(&dl, "delta"), inst_text(d, "delta"))); }
+    }
     let got = match seen { Some(g) => g, None => return c.fail("live-discovery-differs", "tokio pair: a small instance of the service is discovered, the instance with two dozen long attributes (an announcement of about 5.5 KB) is not".into()) };
     if inst_text(&got, "alpha-one") != inst_text(&a, "alpha-one") { return c.fail("live-discovery-differs", format!("tokio pair: advertised {} discovered {}", inst_text(&a, "alpha-one"), inst_text(&got, "alpha-one"))); }
     sa.remove_service_from_discovery().await;
     c.tag("sockets-alive")
+}
+
+/// C20 on the running services: a record received with TTL 10 is still known 6.5 s later, whatever the listener's
+/// background refresh (which wakes at half the TTL, 5 s, to ask again) does in between - both flavours
+pub fn live_short_ttl() -> Vec<Case> {
+    use std::net::UdpSocket;
+    use std::time::{Duration, Instant};
+    let announce = |svc: &str, label: &str, ttl: u32| -> Vec<u8> {
+        let service = Name::new_unchecked(svc).into_owned();
+        let full = Name::new(&format!("{}.{}", label, svc)).unwrap().into_owned();
+        let mut p = Packet::new_reply(0);
+        p.answers.push(ResourceRecord::new(service, CLASS::IN, ttl, RData::PTR(PTR(full.clone()))));
+        p.answers.push(ResourceRecord::new(full.clone(), CLASS::IN, ttl, RData::SRV(simple_dns::rdata::SRV { priority: 0, weight: 0, port: 8201, target: full.clone() })));
+        p.answers.push(ResourceRecord::new(full, CLASS::IN, ttl, RData::A(A { address: 0x7F000003 })));
+        p.build_bytes_vec_compressed().unwrap()
+    };
+    let sync_case = std::thread::spawn(move || -> Case {
+        use simple_mdns::sync_discovery::ServiceDiscovery;
+        let mut c = Case::oracle_only().tag("live-short-ttl");
+        let svc = "_verif20s._tcp.local";
+        let me = InstanceInformation::new("watcher".to_string()).with_ip_address(IpAddr::V4(Ipv4Addr::new(127, 0, 0, 1))).with_port(8200);
+        let sd = match std::panic::catch_unwind(|| ServiceDiscovery::new(me, svc, 60)) { Ok(Ok(s)) => s, _ => return c.tag("sockets-not-exercised") };
+        let sock = match UdpSocket::bind("0.0.0.0:0") { Ok(s) => s, Err(_) => return c.tag("sockets-not-exercised") };
+        std::thread::sleep(Duration::from_millis(300));
+        let t0 = Instant::now();
+        let mut seen = false;
+        while t0.elapsed() < Duration::from_secs(2) && !seen {
+            let _ = sock.send_to(&announce(svc, "long", 120), "224.0.0.251:5353");
+            let _ = sock.send_to(&announce(svc, "short", 10), "224.0.0.251:5353");
+            std::thread::sleep(Duration::from_millis(150));
+            let k = sd.get_known_services();
+            seen = k.iter().any(|i| i.unescaped_instance_name() == "short") && k.iter().any(|i| i.unescaped_instance_name() == "long");
+        }
+        if !seen { return c.tag("sockets-not-exercised"); }
+        let received = Instant::now();
+        while received.elapsed() < Duration::from_millis(6500) { std::thread::sleep(Duration::from_millis(100)); }
+        let k = sd.get_known_services();
+        if !k.iter().any(|i| i.unescaped_instance_name() == "long") { return c.tag("sockets-not-exercised"); }
+        if !k.iter().any(|i| i.unescaped_instance_name() == "short") { c = c.fail("cache-expiry", "sync listener: an instance received with TTL 10 is no longer known 6.5 s later (another one with TTL 120 is)".into()); } else { c = c.tag("sockets-alive"); }
+        c
+    });
+    let tokio_case = std::thread::spawn(move || -> Case {
+        use simple_mdns::async_discovery::ServiceDiscovery;
+        let c0 = Case::oracle_only().tag("live-short-ttl").tag("sockets-tokio");
+        let rt = match tokio::runtime::Builder::new_current_thread().enable_all().build() { Ok(r) => r, Err(_) => return c0.tag("sockets-not-exercised") };
+        rt.block_on(async move {
+            let mut c = c0;
+            let svc = "_verif20t._tcp.local";
+            let me = InstanceInformation::new("watcher".to_string()).with_ip_address(IpAddr::V4(Ipv4Addr::new(127, 0, 0, 1))).with_port(8202);
+            let sd = match ServiceDiscovery::new(me, svc, 60) { Ok(s) => s, Err(_) => return c.tag("sockets-not-exercised") };
+            let sock = match UdpSocket::bind("0.0.0.0:0") { Ok(s) => s, Err(_) => return c.tag("sockets-not-exercised") };
+            tokio::time::sleep(Duration::from_millis(300)).await;
+            let t0 = Instant::now();
+            let mut seen = false;
+            while t0.elapsed() < Duration::from_secs(2) && !seen {
+                let _ = sock.send_to(&announce(svc, "long", 120), "224.0.0.251:5353");
+                let _ = sock.send_to(&announce(svc, "short", 10), "224.0.0.251:5353");
+                tokio::time::sleep(Duration::from_millis(150)).await;
+                let k = sd.get_known_services().await;
+                seen = k.iter().any(|i| i.unescaped_instance_name() == "short") && k.iter().any(|i| i.unescaped_instance_name() == "long");
+            }
+            if !seen { return c.tag("sockets-not-exercised"); }
+            tokio::time::sleep(Duration::from_millis(6500)).await;
+            let k = sd.get_known_services().await;
+            if !k.iter().any(|i| i.unescaped_instance_name() == "long") { return c.tag("sockets-not-exercised"); }
+            if !k.iter().any(|i| i.unescaped_instance_name() == "short") { c = c.fail("cache-expiry", "tokio listener: an instance received with TTL 10 is no longer known 6.5 s later (another one with TTL 120 is)".into()); } else { c = c.tag("sockets-alive"); }
+            c
+        })
+    });
+    let mut out = vec![];
+    for h in [sync_case, tokio_case] { out.push(h.join().unwrap_or_else(|_| Case::oracle_only().tag("live-short-ttl").fail("cache-expiry", "the live short-TTL case panicked".into()))); }
+    out
 }
 
 fn inst_text(i: &InstanceInformation, name: &str) -> String {
@@ -1072,7 +1163,8 @@ pub fn c15(tier: &str, seed: u64) -> Vec<Case> {
         let peers = r.range(1, 3) as usize;
         let mut has_empty_key = false;
         let mut split_names: Vec<String> = vec![];
-        let mut name_pool = vec!["printer", "Printer", "PRINTER", "Living-Room", "living-room", "x", "X", "a1_b", "n0", "a23456789012345678901234567890123456789012345678901234567890123", "b2345678901234567890123456789012345678901234567890123456789012"];
+        // (names equal to the discoverer's own up to letter case are other instances, reported like any other)
+        let mut name_pool = vec!["Self", "SELF", "sElf", "printer", "Printer", "PRINTER", "Living-Room", "living-room", "x", "X", "a1_b", "n0", "a23456789012345678901234567890123456789012345678901234567890123", "b2345678901234567890123456789012345678901234567890123456789012"];
         for _peer in 0..peers {
             // distinct names within a history; names equal up to letter case are distinct instances
             let iname = name_pool.remove(r.below(name_pool.len() as u64) as usize).to_string();
